@@ -366,6 +366,14 @@ func genXchg(r *vlib.R, emit func(string)) {
 	for i := 0; i < n; i++ {
 		cands = append(cands, mk(vlib.Pick(r, []int{1, 1, 1, 2, 3, 4, 5, 6, 7, 8, 9, 0})))
 	}
+	if r.Chance(1, 3) {
+		// a burst of 0..12 stray datagrams with other IDs (right and wrong questions mixed)
+		// in front of the genuine reply: every one of them has to be skipped, however many
+		cands = cands[:0]
+		for i := r.Intn(13); i > 0; i-- {
+			cands = append(cands, mk(vlib.Pick(r, []int{1, 1, 1, 9})))
+		}
+	}
 	if r.Chance(4, 5) {
 		cands = append(cands, mk(0))
 	}
@@ -461,8 +469,9 @@ func localHex() []string {
 }
 
 func genL3(r *vlib.R, tier string, emit func(string)) {
+	flavour := "plain"
 	world := func(mode string, qmin int, shapes []string) {
-		emit(fmt.Sprintf("l3 new %s %d", mode, qmin))
+		emit(fmt.Sprintf("l3 new %s %d %s", mode, qmin, flavour))
 		if mode == "warm" {
 			for _, v := range victimNames {
 				emit(fmt.Sprintf("l3 victim %s %s", v.n, typeName(v.t)))
@@ -505,6 +514,21 @@ func genL3(r *vlib.R, tier string, emit func(string)) {
 			}
 		}
 	}
+	// the same on a VALIDATING resolver: signed root and test., victim.test. signed and secure,
+	// evil.test. delegated insecurely (no DS, NSEC proof) - a CD=0 client, so the signed path is taken
+	flavour = "sec"
+	for _, mode := range []string{"cold", "warm"} {
+		shapes := shuffled()
+		qmin := vlib.Pick(r, []int{0, 3})
+		for len(shapes) > 0 {
+			n := 3 + r.Intn(4)
+			if n > len(shapes) {
+				n = len(shapes)
+			}
+			world(mode, qmin, shapes[:n])
+			shapes = shapes[n:]
+		}
+	}
 	// every shape alone in a fresh world
 	rounds := 1
 	if tier == "thorough" {
@@ -512,6 +536,7 @@ func genL3(r *vlib.R, tier string, emit func(string)) {
 	}
 	for i := 0; i < rounds; i++ {
 		for _, s := range shuffled() {
+			flavour = vlib.Pick(r, []string{"plain", "plain", "sec"})
 			world(vlib.Pick(r, []string{"cold", "warm"}), vlib.Pick(r, []int{0, 3, 3, 5}), []string{s})
 		}
 	}
